@@ -631,6 +631,7 @@ def factory_configs_evaluated(fi: FuncInfo):
     class Stage(EvalObj):
         def __init__(self, cls_name, *a, **k):
             self.cls_name = cls_name
+            self.limit = a[0] if a else (next(iter(k.values())) if k else None)
 
     class Comp(EvalObj):
         def __init__(self, constraints):
@@ -648,11 +649,14 @@ def factory_configs_evaluated(fi: FuncInfo):
     optional = [p for p, d in zip(params, defaults) if (isinstance(d, ast.Constant) and d.value is None) or p in none_tested]
     flags = [p for p, d in zip(params, defaults) if isinstance(d, ast.Constant) and isinstance(d.value, bool)]
     out = []
-    for combo in product([True, False], repeat=len(optional)):
+    sizes = (4, 1, 2) if "num_antennas" in params else (None,)
+    for combo, size_ in ((c_, z_) for z_ in sizes for c_ in product([True, False], repeat=len(optional))):
         for fl in product([True, False], repeat=len(flags)):
             names = {}
             for p, d in zip(params, defaults):
                 names[p] = SAMPLE_LIMITS.get(p, 1.5)
+            if size_ is not None:
+                names["num_antennas"] = size_
                 if p == "spectral_mask":
                     names[p] = [1.0, 1.0]
             for p, present in zip(optional, combo):
@@ -671,7 +675,13 @@ def factory_configs_evaluated(fi: FuncInfo):
                 return None
             if not isinstance(res, Comp) or not all(isinstance(x, Stage) for x in res.constraints):
                 return None
-            out.append((dict(zip(optional, combo)), [(x.cls_name, None) for x in res.constraints]))
+            cfg_ = dict(zip(optional, combo))
+            for p in params:
+                if p not in optional and p in SAMPLE_LIMITS and p != "num_antennas":
+                    cfg_[p] = True  # a required limit is always configured
+            if size_ is not None:
+                cfg_["num_antennas"] = size_
+            out.append((cfg_, [(x.cls_name, x.limit) for x in res.constraints]))
     return out
 
 
@@ -809,6 +819,30 @@ def rule_limit_forward(repo: Repo, rep: Report) -> int:
                 rep.undecided("LIMIT-FORWARD", fi, what, f"limit argument outside the evaluator: {und[0]}", node=ctor)
             else:
                 rep.ok("LIMIT-FORWARD", fi, what, f"evaluates to the configured `{par}` for every option", node=ctor)
+    # the same judged on the evaluated factories (whatever way the stage list is assembled): for every admissible presence
+    # pattern of the optional limits and every array size, each configured limit is enforced by a stage of the class that
+    # carries that limit, built with the configured value - and no stage is built with another value
+    inv = {v: k for k, v in LIMIT_PARAM.items()}
+    for fname in ("create_ofdm_constraints", "create_mimo_constraints"):
+        fi = repo.func(CU, fname)
+        ev = factory_configs_evaluated(fi)
+        if not ev:
+            continue
+        bad = None
+        for cfg_, stages in ev:
+            present = {p_ for p_, on in cfg_.items() if on is True}
+            for p_ in present:
+                if p_ in inv and p_ in SAMPLE_LIMITS and not any(nm_ == inv[p_] and isinstance(v_, (int, float)) and abs(v_ - SAMPLE_LIMITS[p_]) < 1e-12 for nm_, v_ in stages):
+                    bad = bad or f"with {', '.join(sorted(present))} configured" + (f" and num_antennas = {cfg_['num_antennas']}" if "num_antennas" in cfg_ else "") + f" the composite is {[(nm_, v_ if isinstance(v_, (int, float)) else '...') for nm_, v_ in stages]}: no {inv[p_]} stage enforces {p_} = {SAMPLE_LIMITS[p_]}"
+            for nm_, v_ in stages:
+                par = LIMIT_PARAM.get(nm_)
+                if par in SAMPLE_LIMITS and isinstance(v_, (int, float)) and (par not in present or abs(v_ - SAMPLE_LIMITS[par]) > 1e-12):
+                    bad = bad or f"with {', '.join(sorted(present))} configured" + (f" and num_antennas = {cfg_['num_antennas']}" if "num_antennas" in cfg_ else "") + f" a {nm_} stage is built with {v_!r}, which is not a configured `{par}`"
+        n += 1
+        if bad:
+            rep.violation("LIMIT-FORWARD", fi, f"{fname}: stages of the evaluated composites against the configured limits", bad + " - the limit the caller configured is not the one the composite enforces", node=fi.node)
+        else:
+            rep.ok("LIMIT-FORWARD", fi, f"{fname}: stages of the evaluated composites against the configured limits", f"{len(ev)} evaluated configurations (presence patterns of the optional limits" + (", array sizes 1, 2, 4" if any("num_antennas" in c_ for c_, _ in ev) else "") + "): every configured limit is enforced by the stage class that carries it, with the configured value", node=fi.node)
     rep.floor("factory stage constructors", n, 4)
     return n
 
